@@ -6,7 +6,7 @@ A script is a list of tuples; the same alphabet is understood by the Coq model
   ("open",) ("close",) ("send", k, pol) ("send2", k1, pol1, k2, pol2)
   ("adv", ticks) ("net", accept, latency_ticks) ("eof",) ("rst",)
   ("frame", j) ("bad", kind) ("failw",) ("reset",) ("subraise", flag)
-and, outside the model (monitors only): ("bp", on) ("subsend", k, pol) ("sendclose", k, pol) ("trunc", j, cut) ("burn", next_id) ("cancelsends",) ("cancelclose",) ("lostparked",) ("subsenddown", k, pol) ("slowclose", ticks)
+and, outside the model (monitors only): ("bp", on) ("subsend", k, pol) ("sendclose", k, pol) ("trunc", j, cut) ("burn", next_id) ("cancelsends",) ("cancelclose",) ("lostparked",) ("subsenddown", k, pol) ("slowclose", ticks) ("until", tick)
 
 The result is one list of canonical events per stimulus.
 """
@@ -330,7 +330,7 @@ class SockRunner:
                 evs.append(("dial",))
             elif e[0] in ("refused",):
                 evs.append(("refused",))
-            elif e[0] in ("open", "close"):
+            elif e[0] in ("open", "close", "deadclose"):
                 evs.append((e[0], e[1]))
             elif e[0] == "wfail":
                 # the failing write carries the header: its packet id identifies the message
@@ -435,6 +435,21 @@ class SockRunner:
             net.on_client_close = hook
         elif kind == "lostparked":
             pass        # marker for the monitors: the next stimulus kills the link while drain loops are suspended
+        elif kind == "until":
+            # advance, timer by timer, to the absolute instant st[1] (ticks); outside the model, monitors only
+            loop.settle()
+            target = st[1] * vloop.TICK
+            for _ in range(10000):
+                nt = loop.next_timer()
+                if nt is None or nt > target:
+                    break
+                loop.advance_to(nt)
+                loop.settle()
+            if loop.time() < target:
+                loop.advance_to(target)
+            evs = self._collect()
+            evs.append(("time", int(round(loop.time() * 1024))))
+            return evs
         elif kind == "slowclose":
             # from now on a close() by the client completes st[1] ticks later (the peer takes a moment to finish closing):
             # wait_closed() stays suspended meanwhile and timers can fire inside the tear-down; outside the model
